@@ -713,7 +713,7 @@ void printAstTermNode(ASTNode const & astNode) {
         assert(attr_l.getType() == GATTRL_T);
         assert(attr_l.children->size() == 1);
         ASTNode& name_attr = **(attr_l.children->begin());
-        std::cout << "(!";
+        std::cout << "(! ";
         printAstTermNode(named_term);
         std::cout << " " << name_attr.getValue();
         if (name_attr.children != nullptr and not name_attr.children->empty()) {
